@@ -55,7 +55,7 @@ system 0 → 1 where 2 → 1 was asked for. -/
 theorem transformer_stale_if_evicting_cex :
     (run demoWorld [.mk 0 (.str "A") 0, .mk 1 (.str "B") 0, .transformer 0 1 true, .evict 0,
         .drop 0, .gc, .mk 2 (.str "C") 0, .transformer 2 1 true]).2.getLast? = some (.tr 0 1) := by
-  decide
+  decide +kernel
 
 /-- **History freedom of the string form (hence hash and token), partial.**
 Full statement: `str(CRS(spec))` is the same after every history.  It is *false* for the
@@ -78,6 +78,591 @@ theorem crs_str_history_dependent_cex :
     (run demoWorld [.pnewText 0 "A" 0, .mk 1 (.pyproj 0) 0]).2.getLast? = some (.str "A") ∧
     (run demoWorld [.mk 0 (.str "WA") 0, .pnewText 0 "A" 0, .mk 1 (.pyproj 0) 0]).2.getLast?
       = some (.str "WA") := by
-  decide
+  decide +kernel
+
+
+/-! ## CRS equality, hash, token, pickle -/
+
+theorem crs_eq_refl (a : CrsObj) : crsEq a a = true := by simp [crsEq]
+
+theorem crs_eq_symm (a b : CrsObj) : crsEq a b = crsEq b a := by
+  have key : ∀ a b : CrsObj, crsEq a b = true → crsEq b a = true := by
+    intro a b h
+    rw [crsEq_iff] at h ⊢
+    rcases h with h | ⟨h1, h2, h3⟩ | ⟨h1, h2, h3⟩
+    · exact Or.inl h.symm
+    · exact Or.inr (Or.inl ⟨fun e => h1 e.symm, ⟨h2.2, h2.1⟩, h3.symm⟩)
+    · refine Or.inr (Or.inr ⟨fun e => h1 e.symm, fun e => h2 ⟨e.2, e.1⟩, ?_⟩)
+      rcases h3 with h3 | h3
+      · exact Or.inl h3.symm
+      · exact Or.inr h3.symm
+  cases hab : crsEq a b <;> cases hba : crsEq b a
+  · rfl
+  · have := key b a hba; simp_all
+  · have := key a b hab; simp_all
+  · rfl
+
+/-- Under coherence (`Coherent`, defined in `Lemmas/C19b.lean`: same object ⇒ same system,
+known EPSG codes agree exactly when the systems do, same string ⇒ same system) `==` is
+"denotes the same coordinate system".  The EPSG clause is the one real CRSs can violate
+(finding K4). -/
+theorem crs_eq_iff_sys {D : CrsObj → Prop} (hD : Coherent D) (a b : CrsObj) (ha : D a) (hb : D b) :
+    crsEq a b = true ↔ a.info.sys = b.info.sys := crs_eq_iff_sys_aux hD a b ha hb
+
+/-- Transitivity under EPSG coherence (full statement without the hypothesis is false: K4). -/
+theorem crs_eq_trans {D : CrsObj → Prop} (hD : Coherent D) (a b c : CrsObj)
+    (ha : D a) (hb : D b) (hc : D c) (hab : crsEq a b = true) (hbc : crsEq b c = true) :
+    crsEq a c = true := by
+  rw [crs_eq_iff_sys hD _ _ ha hb] at hab
+  rw [crs_eq_iff_sys hD _ _ hb hc] at hbc
+  rw [crs_eq_iff_sys hD _ _ ha hc]
+  exact hab.trans hbc
+
+/-- K4 witness (replayed on the real code with `+proj=longlat +datum=WGS84 +no_defs`):
+`y == x` by string, `x == c` because `x.epsg` was read and reports 4326, yet `y != c`;
+and before `x.epsg` was read `x != c`. -/
+theorem crs_eq_trans_cex :
+    let p4 : PInfo := ⟨12, "P4", "W12", some 4326⟩
+    let p0 : PInfo := ⟨0, "EPSG:4326", "W0", some 4326⟩
+    let x : CrsObj := ⟨1, p4, "P4", some 4326⟩
+    let x0 : CrsObj := ⟨1, p4, "P4", some 0⟩
+    let y : CrsObj := ⟨2, p4, "P4", some 0⟩
+    let c : CrsObj := ⟨0, p0, "EPSG:4326", some 4326⟩
+    crsEq y x = true ∧ crsEq x c = true ∧ crsEq y c = false ∧ crsEq x0 c = false := by
+  decide +kernel
+
+/-- The same through the state machine: reading `.epsg` flips `x == c` (`E` stands for a
+spelling of EPSG:4326 whose code is also found lazily). -/
+def lossyWorld : World where
+  fromText := fun t =>
+    if t = "P4" then some ⟨12, "P4", "W12", some 4326⟩
+    else if t = "E" then some ⟨0, "E", "W0", some 4326⟩ else none
+  fromEpsg := fun _ => none
+
+theorem crs_eq_depends_on_lazy_epsg_cex :
+    (run lossyWorld [.mk 0 (.str "P4") 0, .mk 1 (.str "E") 0, .eq 0 1, .epsg 0, .epsg 1, .eq 0 1]).2
+      = [.str "P4", .str "E", .bool false, .epsg (some 4326), .epsg (some 4326), .bool true] := by
+  decide +kernel
+
+/-- **Lossless equivalent specifications give equal objects**: two instances that denote the
+same system compare equal, whatever spec each was built from (int, string in any letter
+case, WKT2, PROJJSON, pyproj object, another CRS, pickled copy) and whatever the cache
+held — provided the EPSG codes they know (if both know one) agree, which for the same
+system is the determinism of `to_epsg`. -/
+theorem crs_specs_equal (a b : CrsObj) (hsys : a.info.sys = b.info.sys)
+    (hepsg : truthy a.epsg = true → truthy b.epsg = true → a.epsg = b.epsg) :
+    crsEq a b = true := by
+  rw [crsEq_iff]
+  by_cases h1 : a.obj = b.obj
+  · exact Or.inl h1
+  · by_cases h2 : truthy a.epsg = true ∧ truthy b.epsg = true
+    · exact Or.inr (Or.inl ⟨h1, h2, hepsg h2.1 h2.2⟩)
+    · exact Or.inr (Or.inr ⟨h1, h2, Or.inr hsys⟩)
+
+/-- Equal spellings hash equally (for every string hash `H`).  Full statement
+`crsEq a b → hash a = hash b` is false: K1. -/
+theorem crs_eq_hash_partial (H : String → Int) (a b : CrsObj) (hs : a.str = b.str) :
+    crsHash H a = crsHash H b := by simp [crsHash, hs]
+
+/-- K1 witness: `CRS("EPSG:4326") == CRS(wkt)` but the hashed strings differ, so any hash
+that separates the two strings separates the two equal objects. -/
+theorem crs_eq_hash_cex :
+    let a : CrsObj := ⟨0, ⟨0, "EPSG:4326", "W0", some 4326⟩, "EPSG:4326", some 4326⟩
+    let b : CrsObj := ⟨1, ⟨0, "W0", "W0", some 4326⟩, "W0", some 0⟩
+    crsEq a b = true ∧ ∀ H : String → Int, H "EPSG:4326" ≠ H "W0" → crsHash H a ≠ crsHash H b := by
+  refine ⟨by decide +kernel, ?_⟩
+  intro H h
+  simpa [crsHash] using h
+
+/-- Unequal CRSs never share a dask token (under coherence). -/
+theorem crs_neq_token {D : CrsObj → Prop} (hD : Coherent D) (a b : CrsObj) (ha : D a) (hb : D b)
+    (hne : crsEq a b = false) : crsToken a ≠ crsToken b := by
+  intro ht
+  have hs : a.str = b.str := by simpa [crsToken] using ht
+  have := (crs_eq_iff_sys hD a b ha hb).2 (hD.str_sys a b ha hb hs)
+  simp [this] at hne
+
+/-- A copy / pickled clone that kept the string form (`CRS(_str)`; that pyproj parses a
+`_str` back to the same `_str` is checked by the correspondence, not proved) is equal to
+the original and shares its hash and token. -/
+theorem crs_pickle_eq {D : CrsObj → Prop} (hD : Coherent D) (H : String → Int) (c c' : CrsObj)
+    (hc : D c) (hc' : D c') (hs : c'.str = c.str) :
+    crsEq c c' = true ∧ crsToken c' = crsToken c ∧ crsHash H c' = crsHash H c := by
+  refine ⟨?_, by simp [crsToken, hs], by simp [crsHash, hs]⟩
+  exact (crs_eq_iff_sys hD c c' hc hc').2 (hD.str_sys c c' hc hc' hs.symm)
+
+/-- `CRS(other_crs)` copies the three fields: identical in every respect. -/
+theorem crs_copy_identical (W : World) (σ : State) (v pick : Nat) (c : CrsObj)
+    (hv : assoc v σ.vars = some c) : (construct W σ (.crs v) pick).2 = .ok c := by
+  simp [construct, hv]
+
+
+/-! ## Part (b) — value types
+
+Per type: `eq_equiv` (reflexive, symmetric, transitive), `eq_hash` where the type is
+hashable, `neq_token` (unequal ⇒ different dask token), `clone` (copy / pickle round trip
+keeps token and equality).  Types holding a CRS inherit the coherence hypothesis; numbers
+are finite (`NaN` is outside the model). -/
+
+/-! ### XY family -/
+
+theorem XYv.eq_iff (a b : XYv) : a.eq b = true ↔ a.x.val = b.x.val ∧ a.y.val = b.y.val := by
+  simp [XYv.eq, PyNum.eq_iff]
+
+/-- equality ignores the class (`XY(1,2) == Index2d(1,2) == Shape2d(1,2)`) and is an equivalence -/
+theorem XYv.eq_equiv :
+    (∀ a : XYv, a.eq a = true) ∧ (∀ a b : XYv, a.eq b = true → b.eq a = true) ∧
+    (∀ a b c : XYv, a.eq b = true → b.eq c = true → a.eq c = true) := by
+  refine ⟨fun a => (XYv.eq_iff a a).2 ⟨rfl, rfl⟩, fun a b h => ?_, fun a b c h g => ?_⟩
+  · have h := (XYv.eq_iff a b).1 h
+    exact (XYv.eq_iff b a).2 ⟨h.1.symm, h.2.symm⟩
+  · have h := (XYv.eq_iff a b).1 h
+    have g := (XYv.eq_iff b c).1 g
+    exact (XYv.eq_iff a c).2 ⟨h.1.trans g.1, h.2.trans g.2⟩
+
+theorem XYv.eq_hash (a b : XYv) (ka kb : List HAtom) (h : a.eq b = true)
+    (ha : a.hashKey = some ka) (hb : b.hashKey = some kb) : ka = kb := by
+  rw [XYv.eq_iff] at h
+  unfold XYv.hashKey at ha hb
+  split at ha <;> split at hb <;> simp_all
+
+theorem XYv.neq_token (a b : XYv) (h : a.eq b = false) : a.token ≠ b.token := by
+  intro ht
+  have : a.eq b = true := by
+    rw [XYv.eq_iff]
+    simp only [XYv.token, List.cons.injEq, Atom.num.injEq] at ht
+    exact ⟨by rw [ht.2.1], by rw [ht.2.2.1]⟩
+  simp [this] at h
+
+theorem XYv.clone_coherent (a : XYv) :
+    a.eq a.clone = true ∧ a.clone.token = a.token ∧ a.clone.hashKey = a.hashKey :=
+  ⟨XYv.eq_equiv.1 a, rfl, rfl⟩
+
+/-! ### BoundingBox -/
+
+theorem BBox.eq_iff {D : CrsObj → Prop} (hD : Coherent D) (a b : BBox)
+    (ha : OptD D a.crs) (hb : OptD D b.crs) :
+    a.eq b = true ↔ a.crs.map (·.info.sys) = b.crs.map (·.info.sys) ∧
+      a.l.val = b.l.val ∧ a.b.val = b.b.val ∧ a.r.val = b.r.val ∧ a.t.val = b.t.val := by
+  simp [BBox.eq, PyNum.eq_iff, optCrsEq_iff hD a.crs b.crs ha hb, and_assoc]
+
+theorem BBox.eq_equiv {D : CrsObj → Prop} (hD : Coherent D) :
+    (∀ a : BBox, a.eq a = true) ∧
+    (∀ a b : BBox, OptD D a.crs → OptD D b.crs → a.eq b = true → b.eq a = true) ∧
+    (∀ a b c : BBox, OptD D a.crs → OptD D b.crs → OptD D c.crs →
+      a.eq b = true → b.eq c = true → a.eq c = true) := by
+  refine ⟨fun a => by simp [BBox.eq, PyNum.eq, optCrsEq_refl], ?_, ?_⟩
+  · intro a b ha hb h
+    rw [BBox.eq_iff hD _ _ ha hb] at h
+    rw [BBox.eq_iff hD _ _ hb ha]
+    exact ⟨h.1.symm, h.2.1.symm, h.2.2.1.symm, h.2.2.2.1.symm, h.2.2.2.2.symm⟩
+  · intro a b c ha hb hc h g
+    rw [BBox.eq_iff hD _ _ ha hb] at h
+    rw [BBox.eq_iff hD _ _ hb hc] at g
+    rw [BBox.eq_iff hD _ _ ha hc]
+    exact ⟨h.1.trans g.1, h.2.1.trans g.2.1, h.2.2.1.trans g.2.2.1, h.2.2.2.1.trans g.2.2.2.1,
+      h.2.2.2.2.trans g.2.2.2.2⟩
+
+/-- Equal boxes hash equally **relative to** the hash coherence of their CRSs (which K1
+breaks for differently spelled equal CRSs; it holds for equal spellings). -/
+theorem BBox.eq_hash_partial (a b : BBox) (h : a.eq b = true)
+    (hH : optCrsHash a.crs = optCrsHash b.crs) : a.hashKey = b.hashKey := by
+  simp only [BBox.eq, Bool.and_eq_true, PyNum.eq_iff] at h
+  simp [BBox.hashKey, hH, h.2.1.1.1, h.2.1.1.2, h.2.1.2, h.2.2]
+
+theorem BBox.neq_token {D : CrsObj → Prop} (hD : Coherent D) (a b : BBox)
+    (ha : OptD D a.crs) (hb : OptD D b.crs) (h : a.eq b = false) : a.token ≠ b.token := by
+  intro ht
+  simp only [BBox.token, List.cons.injEq, Atom.num.injEq] at ht
+  have hc := optCrsEq_of_pkl hD a.crs b.crs ha hb ht.2.1
+  have : a.eq b = true := by
+    simp [BBox.eq, PyNum.eq, hc, ht.2.2.1, ht.2.2.2.1, ht.2.2.2.2.1, ht.2.2.2.2.2.1]
+  simp [this] at h
+
+/-- pickle round trip: the clone's CRS is `CRS(_str)` with the same string form -/
+theorem BBox.clone_coherent {D : CrsObj → Prop} (hD : Coherent D) (a : BBox) (c' : Option CrsObj)
+    (ha : OptD D a.crs) (hc : OptD D c') (hs : optCrsPkl c' = optCrsPkl a.crs) :
+    a.eq (a.clone c') = true ∧ (a.clone c').token = a.token := by
+  refine ⟨?_, by simp [BBox.token, BBox.clone, hs]⟩
+  simp [BBox.eq, BBox.clone, PyNum.eq, optCrsEq_of_pkl hD a.crs c' ha hc hs.symm]
+
+/-! ### Geometry -/
+
+theorem Geom.eq_iff {D : CrsObj → Prop} (hD : Coherent D) (a b : Geom)
+    (ha : OptD D a.crs) (hb : OptD D b.crs) :
+    a.eq b = true ↔ a.crs.map (·.info.sys) = b.crs.map (·.info.sys) ∧ a.gtype = b.gtype ∧
+      a.layout = b.layout ∧ a.coords.map (·.val) = b.coords.map (·.val) := by
+  simp [Geom.eq, numsEq_iff, optCrsEq_iff hD a.crs b.crs ha hb, and_assoc]
+
+theorem Geom.eq_equiv {D : CrsObj → Prop} (hD : Coherent D) :
+    (∀ a : Geom, a.eq a = true) ∧
+    (∀ a b : Geom, OptD D a.crs → OptD D b.crs → a.eq b = true → b.eq a = true) ∧
+    (∀ a b c : Geom, OptD D a.crs → OptD D b.crs → OptD D c.crs →
+      a.eq b = true → b.eq c = true → a.eq c = true) := by
+  refine ⟨fun a => by simp [Geom.eq, optCrsEq_refl, numsEq_iff], ?_, ?_⟩
+  · intro a b ha hb h
+    rw [Geom.eq_iff hD _ _ ha hb] at h
+    rw [Geom.eq_iff hD _ _ hb ha]
+    exact ⟨h.1.symm, h.2.1.symm, h.2.2.1.symm, h.2.2.2.symm⟩
+  · intro a b c ha hb hc h g
+    rw [Geom.eq_iff hD _ _ ha hb] at h
+    rw [Geom.eq_iff hD _ _ hb hc] at g
+    rw [Geom.eq_iff hD _ _ ha hc]
+    exact ⟨h.1.trans g.1, h.2.1.trans g.2.1, h.2.2.1.trans g.2.2.1, h.2.2.2.trans g.2.2.2⟩
+
+theorem Geom.neq_token {D : CrsObj → Prop} (hD : Coherent D) (a b : Geom)
+    (ha : OptD D a.crs) (hb : OptD D b.crs) (h : a.eq b = false) : a.token ≠ b.token := by
+  intro ht
+  simp only [Geom.token, List.cons_append, List.nil_append, List.cons.injEq, Atom.txt.injEq,
+    Atom.iarr.injEq] at ht
+  have hc := optCrsEq_of_pkl hD a.crs b.crs ha hb ht.2.2.2.1
+  have hco := map_num_inj _ _ ht.2.2.2.2
+  have : a.eq b = true := by
+    simp [Geom.eq, hc, ht.2.1, ht.2.2.1, hco, numsEq_iff]
+  simp [this] at h
+
+theorem Geom.clone_coherent {D : CrsObj → Prop} (hD : Coherent D) (a : Geom) (c' : Option CrsObj)
+    (ha : OptD D a.crs) (hc : OptD D c') (hs : optCrsPkl c' = optCrsPkl a.crs) :
+    a.eq (a.clone c') = true ∧ (a.clone c').token = a.token := by
+  refine ⟨?_, by simp [Geom.token, Geom.clone, hs]⟩
+  simp [Geom.eq, Geom.clone, numsEq_iff, optCrsEq_of_pkl hD a.crs c' ha hc hs.symm]
+
+/-! ### GeoBox -/
+
+theorem GBox.eq_iff {D : CrsObj → Prop} (hD : Coherent D) (a b : GBox)
+    (ha : OptD D a.crs) (hb : OptD D b.crs) :
+    a.eq b = true ↔ a.nx = b.nx ∧ a.ny = b.ny ∧ a.aff.map (·.val) = b.aff.map (·.val) ∧
+      a.crs.map (·.info.sys) = b.crs.map (·.info.sys) := by
+  simp [GBox.eq, numsEq_iff, optCrsEq_iff hD a.crs b.crs ha hb, and_assoc]
+
+theorem GBox.eq_equiv {D : CrsObj → Prop} (hD : Coherent D) :
+    (∀ a : GBox, a.eq a = true) ∧
+    (∀ a b : GBox, OptD D a.crs → OptD D b.crs → a.eq b = true → b.eq a = true) ∧
+    (∀ a b c : GBox, OptD D a.crs → OptD D b.crs → OptD D c.crs →
+      a.eq b = true → b.eq c = true → a.eq c = true) := by
+  refine ⟨fun a => by simp [GBox.eq, optCrsEq_refl, numsEq_iff], ?_, ?_⟩
+  · intro a b ha hb h
+    rw [GBox.eq_iff hD _ _ ha hb] at h
+    rw [GBox.eq_iff hD _ _ hb ha]
+    exact ⟨h.1.symm, h.2.1.symm, h.2.2.1.symm, h.2.2.2.symm⟩
+  · intro a b c ha hb hc h g
+    rw [GBox.eq_iff hD _ _ ha hb] at h
+    rw [GBox.eq_iff hD _ _ hb hc] at g
+    rw [GBox.eq_iff hD _ _ ha hc]
+    exact ⟨h.1.trans g.1, h.2.1.trans g.2.1, h.2.2.1.trans g.2.2.1, h.2.2.2.trans g.2.2.2⟩
+
+/-- relative to CRS hash coherence (K1), as for BoundingBox -/
+theorem GBox.eq_hash_partial (a b : GBox) (h : a.eq b = true)
+    (hH : optCrsHash a.crs = optCrsHash b.crs) : a.hashKey = b.hashKey := by
+  simp only [GBox.eq, Bool.and_eq_true, numsEq_iff, beq_iff_eq] at h
+  simp [GBox.hashKey, hH, h.1.1.1, h.1.1.2, map_hv_congr h.1.2]
+
+theorem GBox.tokenTail_inj {D : CrsObj → Prop} (hD : Coherent D) (a b : GBox)
+    (ha : OptD D a.crs) (hb : OptD D b.crs) (ht : a.tokenTail = b.tokenTail) : a.eq b = true := by
+  simp only [GBox.tokenTail, List.cons_append, List.nil_append, List.cons.injEq, Atom.txt.injEq,
+    Atom.int.injEq] at ht
+  have hc := optCrsEq_of_str hD a.crs b.crs ha hb ht.1
+  have hco := map_num_inj _ _ ht.2.2.2
+  simp [GBox.eq, hc, ht.2.1, ht.2.2.1, hco, numsEq_iff]
+
+theorem GBox.neq_token {D : CrsObj → Prop} (hD : Coherent D) (a b : GBox)
+    (ha : OptD D a.crs) (hb : OptD D b.crs) (h : a.eq b = false) : a.token ≠ b.token := by
+  intro ht
+  have := GBox.tokenTail_inj hD a b ha hb (by simpa [GBox.token] using ht)
+  simp [this] at h
+
+theorem GBox.clone_coherent {D : CrsObj → Prop} (hD : Coherent D) (a : GBox) (c' : Option CrsObj)
+    (ha : OptD D a.crs) (hc : OptD D c') (hs : optCrsStr c' = optCrsStr a.crs) :
+    a.eq (a.clone c') = true ∧ (a.clone c').token = a.token ∧
+      (optCrsHash c' = optCrsHash a.crs → (a.clone c').hashKey = a.hashKey) := by
+  refine ⟨?_, by simp [GBox.token, GBox.tokenTail, GBox.clone, hs], ?_⟩
+  · simp [GBox.eq, GBox.clone, numsEq_iff, optCrsEq_of_str hD a.crs c' ha hc hs.symm]
+  · intro hh; simp [GBox.hashKey, GBox.clone, hh]
+
+/-! ### GCPGeoBox -/
+
+theorem GCPBox.eq_iff (a b : GCPBox) :
+    a.eq b = true ↔ a.nx = b.nx ∧ a.ny = b.ny ∧ a.mapping.ident = b.mapping.ident ∧
+      a.aff.map (·.val) = b.aff.map (·.val) := by
+  simp [GCPBox.eq, numsEq_iff, and_assoc]
+
+theorem GCPBox.eq_equiv :
+    (∀ a : GCPBox, a.eq a = true) ∧ (∀ a b : GCPBox, a.eq b = true → b.eq a = true) ∧
+    (∀ a b c : GCPBox, a.eq b = true → b.eq c = true → a.eq c = true) := by
+  refine ⟨fun a => (GCPBox.eq_iff a a).2 ⟨rfl, rfl, rfl, rfl⟩, fun a b h => ?_, fun a b c h g => ?_⟩
+  · have h := (GCPBox.eq_iff a b).1 h
+    exact (GCPBox.eq_iff b a).2 ⟨h.1.symm, h.2.1.symm, h.2.2.1.symm, h.2.2.2.symm⟩
+  · have h := (GCPBox.eq_iff a b).1 h
+    have g := (GCPBox.eq_iff b c).1 g
+    exact (GCPBox.eq_iff a c).2 ⟨h.1.trans g.1, h.2.1.trans g.2.1, h.2.2.1.trans g.2.2.1, h.2.2.2.trans g.2.2.2⟩
+
+/-- equal ⇒ same mapping *object* ⇒ same hash (an identity names one object) -/
+theorem GCPBox.eq_hash (a b : GCPBox) (h : a.eq b = true)
+    (hwf : a.mapping.ident = b.mapping.ident → a.mapping = b.mapping) : a.hashKey = b.hashKey := by
+  rw [GCPBox.eq_iff] at h
+  simp [GCPBox.hashKey, hwf h.2.2.1, h.1, h.2.1, map_hv_congr h.2.2.2]
+
+/-- K2 witness: the pickled clone gets a new mapping object, so it is **not** equal to the
+original (`pickle_eq` fails) although it shares the dask token (`neq_token` fails too);
+a shallow copy shares the mapping and is equal. -/
+theorem GCPBox.pickle_eq_cex :
+    let g : GCPBox := ⟨3, 4, [], ⟨0, none, [], []⟩⟩
+    g.eq (g.clone 1 none) = false ∧ (g.clone 1 none).token = g.token ∧ g.eq g.copy = true := by
+  decide +kernel
+
+/-- what does hold for the clone: same token; equality exactly when the mapping identity
+were kept -/
+theorem GCPBox.clone_token (a : GCPBox) (fresh : Nat) (c' : Option CrsObj)
+    (hs : optCrsStr c' = optCrsStr a.mapping.crs) :
+    (a.clone fresh c').token = a.token ∧ (a.eq (a.clone fresh c') = true ↔ fresh = a.mapping.ident) := by
+  refine ⟨by simp [GCPBox.token, GCPBox.tokenTail, GCPBox.clone, hs], ?_⟩
+  rw [GCPBox.eq_iff]
+  simp [GCPBox.clone, eq_comm]
+
+/-- `neq_token` restricted to what K2 leaves true: boxes over the *same* mapping object -/
+theorem GCPBox.neq_token_partial (a b : GCPBox) (hm : a.mapping.ident = b.mapping.ident)
+    (h : a.eq b = false) : a.token ≠ b.token := by
+  intro ht
+  simp only [GCPBox.token, GCPBox.tokenTail, List.cons_append, List.nil_append, List.cons.injEq,
+    Atom.int.injEq] at ht
+  have hco := map_num_inj _ _ ht.2.2.2.2.2.2
+  have : a.eq b = true := by
+    rw [GCPBox.eq_iff]; exact ⟨ht.2.2.2.2.2.1, ht.2.2.2.2.1, hm, by rw [hco]⟩
+  simp [this] at h
+
+/-! ### Tiles -/
+
+theorem Tiles.eq_iff (a b : Tiles) :
+    a.eq b = true ↔ a.baseX = b.baseX ∧ a.baseY = b.baseY ∧ a.tileX = b.tileX ∧ a.tileY = b.tileY := by
+  simp [Tiles.eq, and_assoc]
+
+theorem Tiles.eq_equiv :
+    (∀ a : Tiles, a.eq a = true) ∧ (∀ a b : Tiles, a.eq b = true → b.eq a = true) ∧
+    (∀ a b c : Tiles, a.eq b = true → b.eq c = true → a.eq c = true) := by
+  refine ⟨fun a => (Tiles.eq_iff a a).2 ⟨rfl, rfl, rfl, rfl⟩, fun a b h => ?_, fun a b c h g => ?_⟩
+  · have h := (Tiles.eq_iff a b).1 h
+    exact (Tiles.eq_iff b a).2 ⟨h.1.symm, h.2.1.symm, h.2.2.1.symm, h.2.2.2.symm⟩
+  · have h := (Tiles.eq_iff a b).1 h
+    have g := (Tiles.eq_iff b c).1 g
+    exact (Tiles.eq_iff a c).2 ⟨h.1.trans g.1, h.2.1.trans g.2.1, h.2.2.1.trans g.2.2.1, h.2.2.2.trans g.2.2.2⟩
+
+theorem Tiles.tokenTail_inj (a b : Tiles) (ht : a.tokenTail = b.tokenTail) : a.eq b = true := by
+  simp only [Tiles.tokenTail, List.cons.injEq, Atom.int.injEq] at ht
+  rw [Tiles.eq_iff]; exact ⟨ht.2.2.2.2.2.1, ht.2.2.2.2.1, ht.2.2.2.1, ht.2.2.1⟩
+
+/-- after `fix: Tiles dask token includes the base shape` -/
+theorem Tiles.neq_token (a b : Tiles) (h : a.eq b = false) : a.token ≠ b.token := by
+  intro ht
+  have := Tiles.tokenTail_inj a b (by simpa [Tiles.token] using ht)
+  simp [this] at h
+
+/-- F6 witness for the token as it was: `Tiles((10,10),(5,5)) != Tiles((9,9),(5,5))`, same token -/
+theorem Tiles.neq_token_legacy_cex :
+    ∃ a b : Tiles, Tiles.mk' 10 10 5 5 = .ok a ∧ Tiles.mk' 9 9 5 5 = .ok b ∧
+      a.eq b = false ∧ a.tokenLegacy = b.tokenLegacy := by
+  have h1 : ceilDiv 10 5 = 2 := by decide +kernel
+  have h2 : ceilDiv 9 5 = 2 := by decide +kernel
+  exact ⟨⟨10, 10, 5, 5, 2, 2⟩, ⟨9, 9, 5, 5, 2, 2⟩, by simp [Tiles.mk', h1], by simp [Tiles.mk', h2],
+    by decide +kernel, by decide +kernel⟩
+
+theorem Tiles.clone_coherent (a : Tiles) : a.eq a.clone = true ∧ a.clone.token = a.token :=
+  ⟨Tiles.eq_equiv.1 a, rfl⟩
+
+/-! ### VariableSizedTiles -/
+
+theorem VTiles.eq_iff (a b : VTiles) : a.eq b = true ↔ a = b := by
+  cases a; cases b; simp [VTiles.eq]
+
+theorem VTiles.eq_equiv :
+    (∀ a : VTiles, a.eq a = true) ∧ (∀ a b : VTiles, a.eq b = true → b.eq a = true) ∧
+    (∀ a b c : VTiles, a.eq b = true → b.eq c = true → a.eq c = true) := by
+  refine ⟨fun a => (VTiles.eq_iff a a).2 rfl, fun a b h => ?_, fun a b c h g => ?_⟩
+  · exact (VTiles.eq_iff b a).2 ((VTiles.eq_iff a b).1 h).symm
+  · exact (VTiles.eq_iff a c).2 (((VTiles.eq_iff a b).1 h).trans ((VTiles.eq_iff b c).1 g))
+
+theorem VTiles.tokenTail_inj (a b : VTiles) (ht : a.tokenTail = b.tokenTail) : a.eq b = true := by
+  simp only [VTiles.tokenTail, List.cons.injEq, Atom.iarr.injEq] at ht
+  rw [VTiles.eq_iff]; cases a; cases b; simp_all
+
+theorem VTiles.neq_token (a b : VTiles) (h : a.eq b = false) : a.token ≠ b.token := by
+  intro ht
+  have := VTiles.tokenTail_inj a b (by simpa [VTiles.token] using ht)
+  simp [this] at h
+
+theorem VTiles.clone_coherent (a : VTiles) : a.eq a.clone = true ∧ a.clone.token = a.token :=
+  ⟨VTiles.eq_equiv.1 a, rfl⟩
+
+/-! ### Bin1D and GridSpec -/
+
+theorem Bin1D.eq_iff (a b : Bin1D) :
+    a.eq b = true ↔ a.sz.val = b.sz.val ∧ a.origin.val = b.origin.val ∧ a.dir = b.dir := by
+  simp [Bin1D.eq, PyNum.eq_iff, and_assoc]
+
+theorem Bin1D.eq_equiv :
+    (∀ a : Bin1D, a.eq a = true) ∧ (∀ a b : Bin1D, a.eq b = true → b.eq a = true) ∧
+    (∀ a b c : Bin1D, a.eq b = true → b.eq c = true → a.eq c = true) := by
+  refine ⟨fun a => (Bin1D.eq_iff a a).2 ⟨rfl, rfl, rfl⟩, fun a b h => ?_, fun a b c h g => ?_⟩
+  · have h := (Bin1D.eq_iff a b).1 h
+    exact (Bin1D.eq_iff b a).2 ⟨h.1.symm, h.2.1.symm, h.2.2.symm⟩
+  · have h := (Bin1D.eq_iff a b).1 h
+    have g := (Bin1D.eq_iff b c).1 g
+    exact (Bin1D.eq_iff a c).2 ⟨h.1.trans g.1, h.2.1.trans g.2.1, h.2.2.trans g.2.2⟩
+
+theorem Bin1D.tokenTail_inj (a b : Bin1D) (ht : a.tokenTail = b.tokenTail) : a.eq b = true := by
+  simp only [Bin1D.tokenTail, List.cons.injEq, Atom.num.injEq, Atom.int.injEq] at ht
+  rw [Bin1D.eq_iff]; exact ⟨by rw [ht.1], by rw [ht.2.1], ht.2.2.1⟩
+
+theorem Bin1D.neq_token (a b : Bin1D) (h : a.eq b = false) : a.token ≠ b.token := by
+  intro ht
+  have := Bin1D.tokenTail_inj a b (by simpa [Bin1D.token] using ht)
+  simp [this] at h
+
+theorem Bin1D.clone_coherent (a : Bin1D) : a.eq a.clone = true ∧ a.clone.token = a.token :=
+  ⟨Bin1D.eq_equiv.1 a, rfl⟩
+
+theorem GridSpec.eq_iff {D : CrsObj → Prop} (hD : Coherent D) (a b : GridSpec) (ha : D a.crs) (hb : D b.crs) :
+    a.eq b = true ↔ a.tx = b.tx ∧ a.ty = b.ty ∧ a.ybin.eq b.ybin = true ∧ a.xbin.eq b.xbin = true ∧
+      a.crs.info.sys = b.crs.info.sys := by
+  simp [GridSpec.eq, crs_eq_iff_sys_aux hD a.crs b.crs ha hb, and_assoc]
+
+theorem GridSpec.eq_equiv {D : CrsObj → Prop} (hD : Coherent D) :
+    (∀ a : GridSpec, a.eq a = true) ∧
+    (∀ a b : GridSpec, D a.crs → D b.crs → a.eq b = true → b.eq a = true) ∧
+    (∀ a b c : GridSpec, D a.crs → D b.crs → D c.crs → a.eq b = true → b.eq c = true → a.eq c = true) := by
+  refine ⟨fun a => by simp [GridSpec.eq, Bin1D.eq_equiv.1, crs_eq_refl], ?_, ?_⟩
+  · intro a b ha hb h
+    rw [GridSpec.eq_iff hD _ _ ha hb] at h
+    rw [GridSpec.eq_iff hD _ _ hb ha]
+    exact ⟨h.1.symm, h.2.1.symm, Bin1D.eq_equiv.2.1 _ _ h.2.2.1, Bin1D.eq_equiv.2.1 _ _ h.2.2.2.1, h.2.2.2.2.symm⟩
+  · intro a b c ha hb hc h g
+    rw [GridSpec.eq_iff hD _ _ ha hb] at h
+    rw [GridSpec.eq_iff hD _ _ hb hc] at g
+    rw [GridSpec.eq_iff hD _ _ ha hc]
+    exact ⟨h.1.trans g.1, h.2.1.trans g.2.1, Bin1D.eq_equiv.2.2 _ _ _ h.2.2.1 g.2.2.1,
+      Bin1D.eq_equiv.2.2 _ _ _ h.2.2.2.1 g.2.2.2.1, h.2.2.2.2.trans g.2.2.2.2⟩
+
+theorem GridSpec.neq_token {D : CrsObj → Prop} (hD : Coherent D) (a b : GridSpec) (ha : D a.crs) (hb : D b.crs)
+    (h : a.eq b = false) : a.token ≠ b.token := by
+  intro ht
+  simp only [GridSpec.token, Bin1D.tokenTail, List.cons_append, List.nil_append, List.cons.injEq,
+    Atom.txt.injEq, Atom.int.injEq, Atom.num.injEq] at ht
+  have hc := (crs_eq_iff_sys_aux hD a.crs b.crs ha hb).2 (hD.str_sys _ _ ha hb ht.2.1)
+  have : a.eq b = true := by
+    simp [GridSpec.eq, Bin1D.eq, PyNum.eq, hc, ht.2.2.1, ht.2.2.2.1, ht.2.2.2.2.2.2.2.2.1,
+      ht.2.2.2.2.2.2.2.2.2.1, ht.2.2.2.2.2.2.2.2.2.2.1, ht.2.2.2.2.2.2.2.2.2.2.2.1,
+      ht.2.2.2.2.2.2.2.2.2.2.2.2.1, ht.2.2.2.2.2.2.2.2.2.2.2.2.2.1]
+  simp [this] at h
+
+theorem GridSpec.clone_coherent {D : CrsObj → Prop} (hD : Coherent D) (a : GridSpec) (c' : CrsObj)
+    (ha : D a.crs) (hc : D c') (hs : c'.str = a.crs.str) :
+    a.eq (a.clone c') = true ∧ (a.clone c').token = a.token := by
+  refine ⟨?_, by simp [GridSpec.token, GridSpec.clone, hs]⟩
+  simp [GridSpec.eq, GridSpec.clone, Bin1D.eq_equiv.1,
+    (crs_eq_iff_sys_aux hD a.crs c' ha hc).2 (hD.str_sys _ _ ha hc hs.symm)]
+
+/-- `GridSpec.__eq__` does not look at the resolution itself: two grids with the same tile
+*size* but flipped sign of the y resolution are equal (and have different tokens, which
+the property allows). -/
+theorem GridSpec.eq_ignores_resolution_sign (c : CrsObj) :
+    let z : PyNum := ⟨.float, 0, false⟩
+    let bin : Bin1D := ⟨⟨.float, 80, false⟩, z, 1⟩
+    let a : GridSpec := ⟨c, 10, 10, ⟨.float, 8, false⟩, ⟨.float, -8, false⟩, z, z, bin, bin⟩
+    let b : GridSpec := ⟨c, 10, 10, ⟨.float, 8, false⟩, ⟨.float, 8, false⟩, z, z, bin, bin⟩
+    a.eq b = true ∧ a.token ≠ b.token := by
+  refine ⟨?_, ?_⟩
+  · simp [GridSpec.eq, Bin1D.eq, PyNum.eq, crs_eq_refl]
+  · simp [GridSpec.token]
+    decide +kernel
+
+/-! ### GeoboxTiles -/
+
+/-- `neq_token` for tilings of linear GeoBoxes (over a GCPGeoBox it inherits K2) -/
+theorem GBTiles.neq_token_partial {D : CrsObj → Prop} (hD : Coherent D) (ga gb : GBox) (ta tb : AnyTiles)
+    (ha : OptD D ga.crs) (hb : OptD D gb.crs)
+    (h : (GBTiles.mk (.lin ga) ta).eq (GBTiles.mk (.lin gb) tb) = false)
+    (hl : ga.aff.length = gb.aff.length) :
+    (GBTiles.mk (.lin ga) ta).token ≠ (GBTiles.mk (.lin gb) tb).token := by
+  intro ht
+  simp only [GBTiles.token, AnyBox.tokenTail, List.cons.injEq, true_and] at ht
+  have hlen : ga.tokenTail.length = gb.tokenTail.length := by simp [GBox.tokenTail, hl]
+  obtain ⟨h1, h2⟩ := List.append_inj ht hlen
+  have hg := GBox.tokenTail_inj hD ga gb ha hb h1
+  have htl : ta.eq tb = true := by
+    cases ta with
+    | reg x =>
+      cases tb with
+      | reg y => exact Tiles.tokenTail_inj x y h2
+      | var y => simp [AnyTiles.tokenTail, Tiles.tokenTail, VTiles.tokenTail] at h2
+    | var x =>
+      cases tb with
+      | reg y => simp [AnyTiles.tokenTail, Tiles.tokenTail, VTiles.tokenTail] at h2
+      | var y => exact VTiles.tokenTail_inj x y h2
+  simp [GBTiles.eq, AnyBox.eq, hg, htl] at h
+
+/-- where the CRS of the base box (if it is a linear GeoBox) has to be coherent -/
+def AnyBox.OkD (D : CrsObj → Prop) : AnyBox → Prop
+  | .lin g => OptD D g.crs
+  | .gcp _ => True
+
+theorem AnyBox.eq_equiv {D : CrsObj → Prop} (hD : Coherent D) :
+    (∀ a : AnyBox, a.eq a = true) ∧
+    (∀ a b : AnyBox, a.OkD D → b.OkD D → a.eq b = true → b.eq a = true) ∧
+    (∀ a b c : AnyBox, a.OkD D → b.OkD D → c.OkD D → a.eq b = true → b.eq c = true → a.eq c = true) := by
+  refine ⟨?_, ?_, ?_⟩
+  · intro a; cases a with
+    | lin g => exact (GBox.eq_equiv hD).1 g
+    | gcp g => exact GCPBox.eq_equiv.1 g
+  · intro a b ha hb h
+    match a, b, ha, hb, h with
+    | .lin x, .lin y, ha, hb, h => exact (GBox.eq_equiv hD).2.1 x y ha hb h
+    | .gcp x, .gcp y, _, _, h => exact GCPBox.eq_equiv.2.1 x y h
+    | .lin _, .gcp _, _, _, h => simp [AnyBox.eq] at h
+    | .gcp _, .lin _, _, _, h => simp [AnyBox.eq] at h
+  · intro a b c ha hb hc h g
+    match a, b, c, ha, hb, hc, h, g with
+    | .lin x, .lin y, .lin z, ha, hb, hc, h, g => exact (GBox.eq_equiv hD).2.2 x y z ha hb hc h g
+    | .gcp x, .gcp y, .gcp z, _, _, _, h, g => exact GCPBox.eq_equiv.2.2 x y z h g
+    | .lin _, .gcp _, _, _, _, _, h, _ => simp [AnyBox.eq] at h
+    | .gcp _, .lin _, _, _, _, _, h, _ => simp [AnyBox.eq] at h
+    | .lin _, .lin _, .gcp _, _, _, _, _, g => simp [AnyBox.eq] at g
+    | .gcp _, .gcp _, .lin _, _, _, _, _, g => simp [AnyBox.eq] at g
+
+theorem AnyTiles.eq_equiv :
+    (∀ a : AnyTiles, a.eq a = true) ∧ (∀ a b : AnyTiles, a.eq b = true → b.eq a = true) ∧
+    (∀ a b c : AnyTiles, a.eq b = true → b.eq c = true → a.eq c = true) := by
+  refine ⟨?_, ?_, ?_⟩
+  · intro a; cases a with
+    | reg t => exact Tiles.eq_equiv.1 t
+    | var t => exact VTiles.eq_equiv.1 t
+  · intro a b h
+    match a, b, h with
+    | .reg x, .reg y, h => exact Tiles.eq_equiv.2.1 x y h
+    | .var x, .var y, h => exact VTiles.eq_equiv.2.1 x y h
+    | .reg _, .var _, h => simp [AnyTiles.eq] at h
+    | .var _, .reg _, h => simp [AnyTiles.eq] at h
+  · intro a b c h g
+    match a, b, c, h, g with
+    | .reg x, .reg y, .reg z, h, g => exact Tiles.eq_equiv.2.2 x y z h g
+    | .var x, .var y, .var z, h, g => exact VTiles.eq_equiv.2.2 x y z h g
+    | .reg _, .var _, _, h, _ => simp [AnyTiles.eq] at h
+    | .var _, .reg _, _, h, _ => simp [AnyTiles.eq] at h
+    | .reg _, .reg _, .var _, _, g => simp [AnyTiles.eq] at g
+    | .var _, .var _, .reg _, _, g => simp [AnyTiles.eq] at g
+
+/-- GeoboxTiles equality is an equivalence (regular and variable tilings, linear and GCP
+bases mixed) -/
+theorem GBTiles.eq_equiv {D : CrsObj → Prop} (hD : Coherent D) :
+    (∀ a : GBTiles, a.eq a = true) ∧
+    (∀ a b : GBTiles, a.gbox.OkD D → b.gbox.OkD D → a.eq b = true → b.eq a = true) ∧
+    (∀ a b c : GBTiles, a.gbox.OkD D → b.gbox.OkD D → c.gbox.OkD D →
+      a.eq b = true → b.eq c = true → a.eq c = true) := by
+  refine ⟨?_, ?_, ?_⟩
+  · intro a; simp [GBTiles.eq, (AnyBox.eq_equiv hD).1, AnyTiles.eq_equiv.1]
+  · intro a b ha hb h
+    simp only [GBTiles.eq, Bool.and_eq_true] at h ⊢
+    exact ⟨AnyTiles.eq_equiv.2.1 _ _ h.1, (AnyBox.eq_equiv hD).2.1 _ _ ha hb h.2⟩
+  · intro a b c ha hb hc h g
+    simp only [GBTiles.eq, Bool.and_eq_true] at h g ⊢
+    exact ⟨AnyTiles.eq_equiv.2.2 _ _ _ h.1 g.1, (AnyBox.eq_equiv hD).2.2 _ _ _ ha hb hc h.2 g.2⟩
 
 end OdcGeo.C19
